@@ -109,6 +109,27 @@ func C09(c *core.Ctx) error {
 		add("package with a type error"+at, true, func(root core.M, pcs, ics []core.M, files map[string]string, s *c09scn) {
 			files[pk[pos]+"/bad.go"] = "package " + pk[pos] + "\n\nvar x int = \"s\"\n"
 		})
+		// the same with the broken package's interfaces selected by all / by a regex instead of being listed (no
+		// missing-interface accounting can stand in for the load error then)
+		for _, sel := range []string{"all", "include-interface-regex"} {
+			sel := sel
+			add("package with a type error, its interfaces selected by "+sel+at, true, func(root core.M, pcs, ics []core.M, files map[string]string, s *c09scn) {
+				files[pk[pos]+"/bad.go"] = "package " + pk[pos] + "\n\nvar x int = \"s\"\n"
+				cfgp := core.M{"all": true}
+				if sel != "all" {
+					cfgp = core.M{"include-interface-regex": "I.*"}
+				}
+				pkgs(root)[P(pk[pos])] = core.M{"config": cfgp}
+			})
+			add("package with a syntax error, its interfaces selected by "+sel+at, true, func(root core.M, pcs, ics []core.M, files map[string]string, s *c09scn) {
+				files[pk[pos]+"/bad.go"] = "package " + pk[pos] + "\n\nfunc (\n"
+				cfgp := core.M{"all": true}
+				if sel != "all" {
+					cfgp = core.M{"include-interface-regex": "I.*"}
+				}
+				pkgs(root)[P(pk[pos])] = core.M{"config": cfgp}
+			})
+		}
 		add("package with a syntax error"+at, true, func(root core.M, pcs, ics []core.M, files map[string]string, s *c09scn) {
 			files[pk[pos]+"/bad.go"] = "package " + pk[pos] + "\n\nfunc (\n"
 		})
